@@ -153,6 +153,7 @@ func init() {
 			{Pkg: "rtmp", Func: "HarnessC01_Session", Labels: []string{"session"},
 				Bound:  "1-2 messages (first payload 1-5 symbolic bytes, second 1 or 3), each optionally preceded by WritePacket(SetChunkSize) with the size symbolic in [1, 2^31-1]; messages built by NewStreamMessage or NewMessage; type/stream id/timestamp symbolic",
 				BoundT: "1 message of 1-10, 2 messages of 1-6 or 3 messages of 1-2 symbolic payload bytes; every split offset of short streams"},
+			{Pkg: "rtmp", Func: "HarnessC01_Duplex", Labels: []string{"duplex"}, Bound: "two endpoints that both read and write: each optionally announces a chunk size (any value in [1, 2^31-1]) and writes a 3-byte message, reads the other's, writes a 2-byte message, reads the other's"},
 			{Pkg: "rtmp", Func: "HarnessC01_Chunked", Labels: []string{"chunked"},
 				Bound:  "one message of 127/128/129/257 bytes (3 symbolic positions, symbolic type/stream id/timestamp) with the default chunk size or an announced one in {1,127,128,129,4096}, followed by a 2-byte message",
 				BoundT: "sizes 127,128,129,255,256,257,4095,4096,4097,65535,65536"},
